@@ -323,3 +323,637 @@ Proof.
   crush H; rinv.
 Qed.
 #[export] Hint Resolve handle_heartbeat_RInv : rinv.
+
+Lemma fresh_progress_PrsInv ids n mi : PrsInv (fresh_progress ids n mi).
+Proof.
+  unfold fresh_progress, PrsInv. induction ids as [|i t IH]; cbn [map]; constructor; [|exact IH].
+  cbn [snd]. rinv.
+Qed.
+
+Lemma apply_changes_PrsInv chs : forall m n mi, PrsInv m -> PrsInv (apply_changes m chs n mi).
+Proof.
+  induction chs as [|[id [|]] rest IH]; intros m n mi H; cbn [apply_changes]; [exact H| |].
+  - apply IH. apply pput_PrsInv; [exact H|rinv].
+  - apply IH. apply pdel_PrsInv. exact H.
+Qed.
+
+Lemma post_conf_change_RInv r r' cs : post_conf_change r = Ok (r', cs) -> RInv r -> RInv r'.
+Proof.
+  unfold post_conf_change. intros H HI.
+  set (r0 := r <| r_promotable := _ |>) in H.
+  assert (H0 : RInv r0) by (subst r0; rinv). clearbody r0.
+  match type of H with (if ?c then _ else _) = _ => destruct c end; [inversion H; subst; exact H0|].
+  match type of H with (if ?c then _ else _) = _ => destruct c end; [inversion H; subst; exact H0|].
+  inv_bind H. destruct x as [r1 b]. assert (H1 : RInv r1) by rinv.
+  inv_bind H. assert (H2 : RInv x).
+  { destruct b; [rinv|]. eapply for_each_peer_RInv; [|exact Hx0|exact H1].
+    intros ra id rb Hf Ha. destruct (get_pr ra id) as [pr|] eqn:Eg; [|discriminate].
+    inv_bind Hf. destruct x0 as [[rc prc] bc]. inversion Hf; subst. rinv. }
+  inv_bind H. assert (H3 : RInv x0).
+  { destruct (ro_last_pending_request_ctx (r_read_only x)) as [ctx|]; [|inversion Hx1; subst; exact H2].
+    destruct (ro_recv_ack (r_read_only x) (r_id x) ctx) as [ro' acks].
+    assert (RInv (x <| r_read_only := ro' |>)) by rinv.
+    destruct acks as [a|]; [|inversion Hx1; subst; assumption].
+    match type of Hx1 with (if ?c then _ else _) = _ => destruct c end;
+      [|inversion Hx1; subst; assumption].
+    inv_bind Hx1. destruct x1 as [ro2 rss].
+    eapply respond_reads_RInv; [exact Hx1|]. rinv. }
+  inversion H; subst.
+  destruct (r_lead_transferee x0); [|exact H3].
+  match goal with |- RInv (if ?c then _ else _) => destruct c end; rinv.
+Qed.
+#[export] Hint Resolve post_conf_change_RInv : rinv.
+
+Lemma restore_RInv r s r' b : restore r s = Ok (r', b) -> RInv r -> RInv r'.
+Proof.
+  unfold restore. intros H HI.
+  destruct (s_index s <? committed (r_log r)); [inversion H; subst; exact HI|].
+  destruct (negb (role_eqb (r_state r) Follower)).
+  { inv_bind H. inversion H; subst. rinv. }
+  match type of H with (if ?c then _ else _) = _ => destruct c end; [inversion H; subst; exact HI|].
+  inv_bind H.
+  match type of H with (if ?c then _ else _) = _ => destruct c end.
+  { inv_bind H. inversion H; subst. rinv. }
+  inv_bind H.
+  destruct (ConfChange.restore empty_tracker (s_cs s)) as [[c' ids']|e]; [|discriminate].
+  inv_bind H. destruct x1 as [r1 new_cs].
+  assert (H1 : RInv r1).
+  { eapply post_conf_change_RInv; [exact Hx1|]. unfold RInv, set_conf_prs. cbn.
+    apply fresh_progress_PrsInv. }
+  match type of H with (if ?c then _ else _) = _ => destruct c end; [discriminate|].
+  destruct (get_pr r1 (r_id r1)) as [pr|] eqn:Eg; [|discriminate].
+  destruct (next_idx pr =? 0); [discriminate|]. inversion H; subst.
+  assert (RInv (put_pr r1 (r_id r1) (fst (maybe_update pr (next_idx pr - 1))))) by rinv.
+  rinv.
+Qed.
+#[export] Hint Resolve restore_RInv : rinv.
+
+Lemma handle_snapshot_RInv r m r' : handle_snapshot r m = Ok r' -> RInv r -> RInv r'.
+Proof.
+  unfold handle_snapshot. intros H HI. inv_bind H. destruct x as [r1 ok].
+  assert (RInv r1) by rinv. destruct ok; rinv.
+Qed.
+#[export] Hint Resolve handle_snapshot_RInv : rinv.
+
+Lemma handle_append_response_RInv r m r' : handle_append_response r m = Ok r' -> RInv r -> RInv r'.
+Proof.
+  unfold handle_append_response. intros H HI. inv_bind H.
+  destruct (get_pr r (m_from m)) as [pr0|] eqn:Eg; [|inversion H; subst; exact HI].
+  assert (Hp0 : PrInv pr0) by rinv.
+  set (pr := update_committed (set_recent_active pr0 true) (m_commit m)) in H.
+  assert (Hp : PrInv pr) by (subst pr; rinv). clearbody pr.
+  destruct (m_reject m).
+  - destruct (maybe_decr_to pr (m_index m) x (m_request_snapshot m)) as [pr1 dec] eqn:Ed.
+    assert (Hp1 : PrInv pr1) by rinv.
+    destruct dec; [|inversion H; subst; rinv].
+    eapply send_append_to_RInv; [exact H|]. apply put_pr_RInv; [exact HI|].
+    destruct (pstate_eqb (pr_state pr1) Replicate); rinv.
+  - destruct (maybe_update pr (m_index m)) as [pr1 upd] eqn:Eu.
+    assert (Hp1 : PrInv pr1) by rinv.
+    destruct (negb upd); [inversion H; subst; rinv|].
+    inv_bind H. assert (Hp2 : PrInv x0).
+    { destruct (pr_state pr1).
+      - inversion Hx0; subst. rinv.
+      - inv_bind Hx0. inversion Hx0; subst. apply PrInv_set_ins.
+        eapply IInv_free_to; [exact Hp1|exact Hx1].
+      - inversion Hx0; subst. destruct (is_snapshot_caught_up pr1); rinv. }
+    inv_bind H. destruct x1 as [r1 cmt]. assert (H1 : RInv r1) by rinv.
+    inv_bind H. assert (H2 : RInv x1).
+    { destruct cmt; [destruct (should_bcast_commit r1); [rinv|inversion Hx2; subst; exact H1]|].
+      destruct (is_paused pr); [rinv|inversion Hx2; subst; exact H1]. }
+    inv_bind H. assert (H3 : RInv x2) by rinv.
+    crush H; rinv.
+Qed.
+#[export] Hint Resolve handle_append_response_RInv : rinv.
+
+Lemma handle_heartbeat_response_RInv r m r' :
+  handle_heartbeat_response r m = Ok r' -> RInv r -> RInv r'.
+Proof.
+  unfold handle_heartbeat_response. intros H HI.
+  destruct (get_pr r (m_from m)) as [pr0|] eqn:Eg; [|inversion H; subst; exact HI].
+  assert (Hp0 : PrInv pr0) by rinv.
+  set (pr := resume (set_recent_active (update_committed pr0 (m_commit m)) true)) in H.
+  assert (Hp : PrInv pr) by (subst pr; rinv). clearbody pr.
+  inv_bind H. assert (Hp1 : PrInv x).
+  { match type of Hx with (if ?c then _ else _) = _ => destruct c end;
+      [|inversion Hx; subst; exact Hp].
+    inv_bind Hx. inversion Hx; subst. apply PrInv_set_ins.
+    eapply IInv_free_first_one; [exact Hp|exact Hx0]. }
+  inv_bind H. assert (H1 : RInv x0).
+  { match type of Hx0 with (if ?c then _ else _) = _ => destruct c end;
+      [|inversion Hx0; subst; rinv].
+    inv_bind Hx0. destruct x1 as [[ra pra] ba]. inversion Hx0; subst. rinv. }
+  match type of H with (if ?c then _ else _) = _ => destruct c end; [inversion H; subst; exact H1|].
+  destruct (ro_recv_ack (r_read_only x0) (m_from m) (m_context m)) as [ro' acks].
+  assert (RInv (x0 <| r_read_only := ro' |>)) by rinv.
+  destruct acks as [a|]; [|inversion H; subst; assumption].
+  match type of H with (if ?c then _ else _) = _ => destruct c end; [|inversion H; subst; assumption].
+  inv_bind H. destruct x1 as [ro2 rss]. eapply respond_reads_RInv; [exact H|]. rinv.
+Qed.
+#[export] Hint Resolve handle_heartbeat_response_RInv : rinv.
+
+Lemma handle_transfer_leader_RInv r m r' : handle_transfer_leader r m = Ok r' -> RInv r -> RInv r'.
+Proof.
+  unfold handle_transfer_leader. intros H HI.
+  destruct (get_pr r (m_from m)) as [p0|]; [|inversion H; subst; exact HI].
+  destruct (IdSet.mem (m_from m) (learners (conf_of r))); [inversion H; subst; exact HI|].
+  assert (Hcont : forall ra, RInv ra ->
+    (if m_from m =? r_id ra then Ok ra else
+       let rb := ra <| r_election_elapsed := 0 |> <| r_lead_transferee := Some (m_from m) |> in
+       match get_pr rb (m_from m) with
+       | None => Panic site_pr_unwrap
+       | Some pr =>
+           if matched pr =? RaftLog.last_index (r_log rb) then send_timeout_now rb (m_from m)
+           else y <- maybe_send_append rb (m_from m) pr true ;;
+                let '(r', pr', _) := y in Ok (put_pr r' (m_from m) pr')
+       end) = Ok r' -> RInv r').
+  { intros ra Ha Hc. destruct (m_from m =? r_id ra); [inversion Hc; subst; exact Ha|].
+    cbv zeta in Hc.
+    set (rb := ra <| r_election_elapsed := 0 |> <| r_lead_transferee := Some (m_from m) |>) in Hc.
+    assert (Hb : RInv rb) by (subst rb; rinv). clearbody rb.
+    destruct (get_pr rb (m_from m)) as [pr|] eqn:Eg; [|discriminate].
+    destruct (matched pr =? RaftLog.last_index (r_log rb)); [rinv|].
+    inv_bind Hc. destruct x as [[rc prc] bc]. inversion Hc; subst. rinv. }
+  destruct (r_lead_transferee r) as [last|].
+  - destruct (last =? m_from m); [inversion H; subst; exact HI|].
+    apply (Hcont (r <| r_lead_transferee := None |>)); [rinv|exact H].
+  - apply (Hcont r HI H).
+Qed.
+#[export] Hint Resolve handle_transfer_leader_RInv : rinv.
+
+Lemma handle_snapshot_status_RInv r m r' : handle_snapshot_status r m = Ok r' -> RInv r -> RInv r'.
+Proof.
+  unfold handle_snapshot_status. intros H HI.
+  destruct (get_pr r (m_from m)) as [pr|] eqn:Eg; [|inversion H; subst; exact HI].
+  assert (PrInv pr) by rinv.
+  destruct (negb (pstate_eqb (pr_state pr) Snapshot)); [inversion H; subst; exact HI|].
+  inversion H; subst. destruct (m_reject m); rinv.
+Qed.
+#[export] Hint Resolve handle_snapshot_status_RInv : rinv.
+
+Lemma handle_unreachable_RInv r m r' : handle_unreachable r m = Ok r' -> RInv r -> RInv r'.
+Proof.
+  unfold handle_unreachable. intros H HI.
+  destruct (get_pr r (m_from m)) as [pr|] eqn:Eg; [|inversion H; subst; exact HI].
+  assert (PrInv pr) by rinv. inversion H; subst.
+  destruct (pstate_eqb (pr_state pr) Replicate); rinv.
+Qed.
+#[export] Hint Resolve handle_unreachable_RInv : rinv.
+
+Lemma filter_conf_changes_prs ents : forall r info i r' ents' ok,
+  filter_conf_changes r ents info i = (r', ents', ok) -> r_prs r' = r_prs r.
+Proof.
+  induction ents as [|e rest IH]; intros r info i r' ents' ok H; cbn [filter_conf_changes] in H.
+  - inversion H; reflexivity.
+  - destruct (negb (is_conf_entry e)).
+    + destruct (filter_conf_changes r rest _ (i + 1)) as [[ra ea] oa] eqn:E.
+      inversion H; subst. eapply IH; exact E.
+    + match type of H with (if ?c then _ else _) = _ => destruct c end; [inversion H; reflexivity|].
+      match type of H with (if ?c then _ else _) = _ => destruct c end.
+      * destruct (filter_conf_changes r rest _ (i + 1)) as [[ra ea] oa] eqn:E.
+        inversion H; subst. eapply IH; exact E.
+      * match type of H with (let '(_, _, _) := filter_conf_changes ?r1 _ _ _ in _) = _ =>
+          destruct (filter_conf_changes r1 rest
+                      match info with _ :: t => t | [] => [] end (i + 1)) as [[ra ea] oa] eqn:E end.
+        inversion H; subst. rewrite (IH _ _ _ _ _ _ E). reflexivity.
+Qed.
+
+Lemma filter_conf_changes_RInv r ents info i r' ents' ok :
+  filter_conf_changes r ents info i = (r', ents', ok) -> RInv r -> RInv r'.
+Proof. intros H. apply RInv_same. rewrite (filter_conf_changes_prs _ _ _ _ _ _ _ H). reflexivity. Qed.
+#[export] Hint Resolve filter_conf_changes_RInv : rinv.
+
+Lemma quorum_recently_active_PrsInv t p t' b :
+  quorum_recently_active t p = (t', b) -> PrsInv (t_progress t) -> PrsInv (t_progress t').
+Proof.
+  unfold quorum_recently_active. intros H HI. inversion H; subst. cbn.
+  apply (PrsInv_map (fun kp => set_recent_active (snd kp) (fst kp =? p))); [|exact HI].
+  intros kp Hk. rinv.
+Qed.
+
+Lemma step_leader_RInv r m r' c : step_leader r m = Ok (r', c) -> RInv r -> RInv r'.
+Proof.
+  unfold step_leader. intros H HI.
+  destruct (m_type m =? MsgBeat). { crush H; rinv. }
+  destruct (m_type m =? MsgCheckQuorum).
+  { destruct (quorum_recently_active (r_prs r) (r_id r)) as [prs' active] eqn:Eq.
+    assert (H1 : RInv (r <| r_prs := prs' |>)).
+    { unfold RInv. cbn. eapply quorum_recently_active_PrsInv; [exact Eq|exact HI]. }
+    crush H; rinv. }
+  destruct (m_type m =? MsgPropose).
+  { destruct (m_entries m); [discriminate|].
+    destruct (get_pr r (r_id r)); [|inversion H; subst; exact HI].
+    destruct (r_lead_transferee r); [inversion H; subst; exact HI|].
+    match type of H with (let '(_, _, _) := ?f in _) = _ => destruct f as [[r1 ents] ok] eqn:Ef end.
+    assert (H1 : RInv r1) by rinv.
+    crush H; rinv. }
+  destruct (m_type m =? MsgReadIndex).
+  { inv_bind H. destruct (negb x); [inversion H; subst; exact HI|].
+    assert (Hans : forall ra c,
+      (x <- handle_ready_read_index r m (committed (r_log r)) ;;
+       (let '(r1, om) := x in
+        r2 <- match om with Some mm => send r1 mm | None => Ok r1 end ;; Ok (r2, E_OK))) = Ok (ra, c) ->
+      RInv ra).
+    { intros ra c0 Ha. inv_bind Ha. destruct x0 as [r1 om]. assert (RInv r1) by rinv.
+      inv_bind Ha. inversion Ha; subst. destruct om; [rinv|inversion Hx1; subst; assumption]. }
+    match type of H with (if ?c then _ else _) = _ => destruct c end; [eapply Hans; exact H|].
+    match type of H with (if ?c then _ else _) = _ => destruct c end; [|eapply Hans; exact H].
+    inv_bind H. inv_bind H. inv_bind H. inversion H; subst.
+    eapply bcast_heartbeat_with_ctx_RInv; [exact Hx2|]. rinv. }
+  crush H; rinv.
+Qed.
+#[export] Hint Resolve step_leader_RInv : rinv.
+
+Lemma step_candidate_RInv r m r' c : step_candidate r m = Ok (r', c) -> RInv r -> RInv r'.
+Proof.
+  unfold step_candidate. intros H HI.
+  destruct (m_type m =? MsgPropose); [inversion H; subst; exact HI|].
+  match type of H with (if ?c then _ else _) = _ => destruct c end.
+  { destruct (negb (r_term r =? m_term m)); [discriminate|].
+    inv_bind H. assert (RInv x) by rinv. inv_bind H. inversion H; subst.
+    destruct (m_type m =? MsgAppend); [rinv|]. destruct (m_type m =? MsgHeartbeat); rinv. }
+  match type of H with (if ?c then _ else _) = _ => destruct c end; [|inversion H; subst; exact HI].
+  match type of H with (if ?c then _ else _) = _ => destruct c end; [inversion H; subst; exact HI|].
+  inv_bind H. destruct x as [r1 res]. cbn [fst] in H. inv_bind H. inversion H; subst. rinv.
+Qed.
+#[export] Hint Resolve step_candidate_RInv : rinv.
+
+Lemma step_follower_RInv r m r' c : step_follower r m = Ok (r', c) -> RInv r -> RInv r'.
+Proof.
+  unfold step_follower. intros H HI.
+  assert (Hf : RInv (r <| r_election_elapsed := 0 |> <| r_leader_id := m_from m |>)) by rinv.
+  destruct (m_type m =? MsgPropose). { crush H; rinv. }
+  destruct (m_type m =? MsgAppend). { crush H; rinv. }
+  destruct (m_type m =? MsgHeartbeat). { crush H; rinv. }
+  destruct (m_type m =? MsgSnapshot). { crush H; rinv. }
+  destruct (m_type m =? MsgTransferLeader). { crush H; rinv. }
+  destruct (m_type m =? MsgTimeoutNow). { crush H; rinv. }
+  destruct (m_type m =? MsgReadIndex). { crush H; rinv. }
+  destruct (m_type m =? MsgReadIndexResp); [|inversion H; subst; exact HI].
+  destruct (m_entries m) as [|e [|e2 t]]; try (inversion H; subst; exact HI).
+  inv_bind H. inversion H; subst. rinv.
+Qed.
+#[export] Hint Resolve step_follower_RInv : rinv.
+
+Theorem step_RInv r m r' c : step r m = Ok (r', c) -> RInv r -> RInv r'.
+Proof.
+  unfold step. intros H HI. inv_bind H.
+  assert (Hpre : match x with inl (r1, _) => RInv r1 | inr r1 => RInv r1 end).
+  { clear H. destruct (m_term m =? 0); [inversion Hx; subst; exact HI|].
+    destruct (r_term r <? m_term m).
+    - match type of Hx with (if ?c then _ else _) = _ => destruct c end;
+        [inversion Hx; subst; exact HI|].
+      match type of Hx with (if ?c then _ else _) = _ => destruct c end;
+        [inversion Hx; subst; exact HI|].
+      match type of Hx with (if ?c then _ else _) = _ => destruct c end;
+        inv_bind Hx; inversion Hx; subst; rinv.
+    - destruct (m_term m <? r_term r); [|inversion Hx; subst; exact HI].
+      match type of Hx with (if ?c then _ else _) = _ => destruct c end;
+        [inv_bind Hx; inversion Hx; subst; rinv|].
+      match type of Hx with (if ?c then _ else _) = _ => destruct c end;
+        [inv_bind Hx; inversion Hx; subst; rinv|inversion Hx; subst; exact HI]. }
+  destruct x as [[r1 c1]|r1]; [inversion H; subst; exact Hpre|].
+  destruct (m_type m =? MsgHup). { crush H; rinv. }
+  match type of H with (if ?c then _ else _) = _ => destruct c end.
+  { inv_bind H. inv_bind H.
+    match type of H with (if ?c then _ else _) = _ => destruct c end.
+    - inv_bind H. assert (RInv x1) by rinv.
+      destruct (m_type m =? MsgRequestVote); inversion H; subst; rinv.
+    - inv_bind H. inv_bind H. inv_bind H. inversion H; subst. rinv. }
+  destruct (r_state r1); rinv.
+Qed.
+#[export] Hint Resolve step_RInv : rinv.
+
+(* ------------------------------------------------------------------ *)
+(* ticks and the rest of the Raft API *)
+
+Lemma tick_election_RInv r r' b : tick_election r = Ok (r', b) -> RInv r -> RInv r'.
+Proof.
+  unfold tick_election. intros H HI.
+  set (r0 := r <| r_election_elapsed := r_election_elapsed r + 1 |>) in H.
+  assert (H0 : RInv r0) by (subst r0; rinv). clearbody r0.
+  match type of H with (if ?c then _ else _) = _ => destruct c end; [inversion H; subst; exact H0|].
+  inv_bind H. destruct x as [r1 c]. inversion H; subst. cbn [fst].
+  eapply step_RInv; [exact Hx|]. rinv.
+Qed.
+#[export] Hint Resolve tick_election_RInv : rinv.
+
+Lemma tick_heartbeat_RInv r r' b : tick_heartbeat r = Ok (r', b) -> RInv r -> RInv r'.
+Proof.
+  unfold tick_heartbeat. intros H HI.
+  set (r0 := r <| r_heartbeat_elapsed := r_heartbeat_elapsed r + 1 |>
+               <| r_election_elapsed := r_election_elapsed r + 1 |>) in H.
+  assert (H0 : RInv r0) by (subst r0; rinv). clearbody r0.
+  inv_bind H. destruct x as [r1 hr].
+  assert (H1 : RInv r1).
+  { destruct (r_election_timeout r0 <=? r_election_elapsed r0); [|inversion Hx; subst; exact H0].
+    inv_bind Hx. destruct x as [ra ha].
+    assert (Ha : RInv ra).
+    { destruct (r_check_quorum (r0 <| r_election_elapsed := 0 |>)).
+      - inv_bind Hx0. destruct x as [rb cb]. inversion Hx0; subst. cbn [fst].
+        eapply step_RInv; [exact Hx1|]. rinv.
+      - inversion Hx0; subst. rinv. }
+    inversion Hx; subst.
+    match goal with |- RInv (if ?c then _ else _) => destruct c end; rinv. }
+  destruct (negb (is_leader r1)); [inversion H; subst; exact H1|].
+  destruct (r_heartbeat_timeout r1 <=? r_heartbeat_elapsed r1); [|inversion H; subst; exact H1].
+  inv_bind H. destruct x as [rb cb]. inversion H; subst. cbn [fst].
+  eapply step_RInv; [exact Hx0|]. rinv.
+Qed.
+#[export] Hint Resolve tick_heartbeat_RInv : rinv.
+
+Theorem tick_RInv r r' b : tick r = Ok (r', b) -> RInv r -> RInv r'.
+Proof. unfold tick. destruct (r_state r); rinv. Qed.
+#[export] Hint Resolve tick_RInv : rinv.
+
+Theorem on_persist_entries_RInv r i t r' : on_persist_entries r i t = Ok r' -> RInv r -> RInv r'.
+Proof.
+  unfold on_persist_entries. intros H HI. inv_bind H. destruct x as [l' upd].
+  set (r0 := r <| r_log := l' |>) in H. assert (H0 : RInv r0) by (subst r0; rinv). clearbody r0.
+  destruct (upd && is_leader r0); [|inversion H; subst; exact H0].
+  destruct (get_pr r0 (r_id r0)) as [pr|] eqn:Eg; [|discriminate].
+  destruct (maybe_update pr i) as [pr' u] eqn:Eu.
+  assert (H1 : RInv (put_pr r0 (r_id r0) pr')) by rinv.
+  destruct u; [|inversion H; subst; exact H1].
+  inv_bind H. destruct x as [r1 c]. assert (RInv r1) by rinv.
+  destruct (c && should_bcast_commit r1); [rinv|inversion H; subst; assumption].
+Qed.
+
+Theorem on_persist_snap_RInv r i r' : on_persist_snap r i = Ok r' -> RInv r -> RInv r'.
+Proof. unfold on_persist_snap. intros H HI. inv_bind H. inversion H; subst. rinv. Qed.
+
+Theorem commit_apply_internal_RInv r a sk r' :
+  commit_apply_internal r a sk = Ok r' -> RInv r -> RInv r'.
+Proof.
+  unfold commit_apply_internal. intros H HI. inv_bind H.
+  set (r0 := r <| r_log := x |>) in H. assert (H0 : RInv r0) by (subst r0; rinv). clearbody r0.
+  match type of H with (if ?c then _ else _) = _ => destruct c end; [|inversion H; subst; exact H0].
+  inv_bind H. destruct x0 as [r1 ok]. assert (RInv r1) by rinv.
+  destruct (negb ok); [discriminate|]. inversion H; subst. rinv.
+Qed.
+
+Theorem commit_apply_RInv r a r' : commit_apply r a = Ok r' -> RInv r -> RInv r'.
+Proof. unfold commit_apply. apply commit_apply_internal_RInv. Qed.
+
+Theorem raft_apply_conf_change_RInv r cc r' ocs :
+  raft_apply_conf_change r cc = Ok (r', ocs) -> RInv r -> RInv r'.
+Proof.
+  unfold raft_apply_conf_change. intros H HI.
+  match type of H with (match ?res with _ => _ end) = _ => destruct res as [[c' chs]|e] end;
+    [|inversion H; subst; exact HI].
+  inv_bind H. destruct x as [r1 cs]. inversion H; subst. cbn [fst].
+  eapply post_conf_change_RInv; [exact Hx|]. unfold RInv, set_conf_prs. cbn.
+  apply apply_changes_PrsInv. exact HI.
+Qed.
+
+Theorem load_state_RInv r hs r' : load_state r hs = Ok r' -> RInv r -> RInv r'.
+Proof. unfold load_state. intros H HI. crush H; rinv. Qed.
+
+Theorem request_snapshot_RInv r r' c : request_snapshot r = Ok (r', c) -> RInv r -> RInv r'.
+Proof.
+  unfold request_snapshot. intros H HI.
+  destruct (is_leader r); [inversion H; subst; exact HI|].
+  destruct (r_leader_id r =? INVALID_ID); [inversion H; subst; exact HI|].
+  match type of H with (if ?c then _ else _) = _ => destruct c end; [inversion H; subst; exact HI|].
+  match type of H with (if ?c then _ else _) = _ => destruct c end; [inversion H; subst; exact HI|].
+  inv_bind H. destruct x as [rt|e]; [|discriminate].
+  destruct (r_term r =? rt); [|inversion H; subst; exact HI].
+  inv_bind H. inversion H; subst. eapply send_request_snapshot_RInv; [exact Hx0|]. rinv.
+Qed.
+
+Theorem ping_RInv r r' : ping r = Ok r' -> RInv r -> RInv r'.
+Proof. unfold ping. intros H HI. destruct (is_leader r); [rinv|inversion H; subst; exact HI]. Qed.
+
+(* runtime window resizing keeps the invariant *)
+Theorem adjust_max_inflight_msgs_RInv r target c r' :
+  adjust_max_inflight_msgs r target c = Ok r' -> RInv r -> RInv r'.
+Proof.
+  unfold adjust_max_inflight_msgs. intros H HI.
+  destruct (get_pr r target) as [pr|] eqn:Eg; [|inversion H; subst; exact HI].
+  assert (Hp : PrInv pr) by rinv. inv_bind H. inversion H; subst.
+  apply put_pr_RInv; [exact HI|]. apply PrInv_set_ins. eapply IInv_set_cap; [exact Hp|exact Hx].
+Qed.
+
+Theorem maybe_free_inflight_buffers_RInv r : RInv r -> RInv (maybe_free_inflight_buffers r).
+Proof.
+  unfold maybe_free_inflight_buffers, RInv. cbn. intros HI.
+  apply (PrsInv_map (fun kp => set_ins (snd kp) (Inflights.maybe_free_buffer (ins (snd kp)))));
+    [|exact HI].
+  intros kp Hk. apply PrInv_set_ins. apply IInv_maybe_free_buffer. exact Hk.
+Qed.
+
+Theorem set_max_apply_unpersisted_log_limit_RInv r lim :
+  RInv r -> RInv (set_max_apply_unpersisted_log_limit r lim).
+Proof. unfold set_max_apply_unpersisted_log_limit. intros; rinv. Qed.
+
+Theorem enable_group_commit_RInv r e r' : enable_group_commit r e = Ok r' -> RInv r -> RInv r'.
+Proof.
+  unfold enable_group_commit. intros H HI.
+  set (r0 := r <| r_prs := _ |>) in H. assert (H0 : RInv r0) by (subst r0; rinv). clearbody r0.
+  destruct (is_leader r0 && negb e); [|inversion H; subst; exact H0].
+  inv_bind H. destruct x as [r1 b]. cbn [fst snd] in H. assert (RInv r1) by rinv.
+  destruct b; [rinv|inversion H; subst; assumption].
+Qed.
+
+Lemma assign_groups_PrsInv ids : forall m m', assign_groups m ids = Ok m' -> PrsInv m -> PrsInv m'.
+Proof.
+  induction ids as [|[peer g] rest IH]; intros m m' H HI; cbn [assign_groups] in H.
+  - inversion H; subst; exact HI.
+  - destruct (g =? 0); [discriminate|].
+    destruct (pget m peer) as [pr|] eqn:Eg; [|eapply IH; eassumption].
+    eapply IH; [exact H|]. apply pput_PrsInv; [exact HI|].
+    apply PrInv_set_commit_group_id. eapply pget_PrInv; eassumption.
+Qed.
+
+Theorem assign_commit_groups_RInv r ids r' : assign_commit_groups r ids = Ok r' -> RInv r -> RInv r'.
+Proof.
+  unfold assign_commit_groups. intros H HI. inv_bind H.
+  set (r0 := r <| r_prs := _ |>) in H.
+  assert (H0 : RInv r0).
+  { subst r0. unfold RInv. cbn. eapply assign_groups_PrsInv; [exact Hx|exact HI]. }
+  clearbody r0.
+  match type of H with (if ?c then _ else _) = _ => destruct c end; [|inversion H; subst; exact H0].
+  inv_bind H. destruct x0 as [r1 b]. cbn [fst snd] in H. assert (RInv r1) by rinv.
+  destruct b; [rinv|inversion H; subst; assumption].
+Qed.
+
+(* ------------------------------------------------------------------ *)
+(* RawNode wrappers *)
+From RV Require Import M.RawNode.
+
+Definition NInv (n : rawnode) : Prop := RInv (rn_raft n).
+
+Lemma lift_NInv n x n' : lift n x = Ok n' -> (forall r, x = Ok r -> RInv r) -> NInv n'.
+Proof. unfold lift. intros H Hx. inv_bind H. inversion H; subst. apply Hx. exact Hx0. Qed.
+
+Lemma lift2_NInv n x n' c :
+  lift2 n x = Ok (n', c) -> (forall r c, x = Ok (r, c) -> RInv r) -> NInv n'.
+Proof.
+  unfold lift2. intros H Hx. inv_bind H. destruct x0 as [r c0]. inversion H; subst.
+  eapply Hx. exact Hx0.
+Qed.
+
+Theorem rn_step_NInv n m n' c : rn_step n m = Ok (n', c) -> NInv n -> NInv n'.
+Proof.
+  unfold rn_step. intros H HI.
+  destruct (is_local_msg (m_type m)); [inversion H; subst; exact HI|].
+  match type of H with (if ?c then _ else _) = _ => destruct c end; [|inversion H; subst; exact HI].
+  eapply lift2_NInv; [exact H|]. intros r c0 E. eapply step_RInv; [exact E|exact HI].
+Qed.
+
+Theorem rn_tick_NInv n n' b : rn_tick n = Ok (n', b) -> NInv n -> NInv n'.
+Proof.
+  unfold rn_tick. intros H HI. inv_bind H. destruct x as [r b0]. inversion H; subst.
+  unfold NInv. cbn. eapply tick_RInv; [exact Hx|exact HI].
+Qed.
+
+Theorem rn_campaign_NInv n n' c : rn_campaign n = Ok (n', c) -> NInv n -> NInv n'.
+Proof.
+  unfold rn_campaign. intros H HI. eapply lift2_NInv; [exact H|].
+  intros r c0 E. eapply step_RInv; [exact E|exact HI].
+Qed.
+
+Theorem rn_propose_NInv n ctx data n' c : rn_propose n ctx data = Ok (n', c) -> NInv n -> NInv n'.
+Proof.
+  unfold rn_propose. intros H HI. eapply lift2_NInv; [exact H|].
+  intros r c0 E. eapply step_RInv; [exact E|exact HI].
+Qed.
+
+Theorem rn_propose_conf_change_NInv n ctx data ty ci n' c :
+  rn_propose_conf_change n ctx data ty ci = Ok (n', c) -> NInv n -> NInv n'.
+Proof.
+  unfold rn_propose_conf_change. intros H HI. eapply lift2_NInv; [exact H|].
+  intros r c0 E. eapply step_RInv; [exact E|exact HI].
+Qed.
+
+Theorem rn_apply_conf_change_NInv n cc n' o :
+  rn_apply_conf_change n cc = Ok (n', o) -> NInv n -> NInv n'.
+Proof.
+  unfold rn_apply_conf_change. intros H HI. inv_bind H. destruct x as [r o0]. inversion H; subst.
+  unfold NInv. cbn. eapply raft_apply_conf_change_RInv; [exact Hx|exact HI].
+Qed.
+
+Theorem rn_ping_NInv n n' : rn_ping n = Ok n' -> NInv n -> NInv n'.
+Proof.
+  unfold rn_ping. intros H HI. eapply lift_NInv; [exact H|].
+  intros r E. eapply ping_RInv; [exact E|exact HI].
+Qed.
+
+Lemma gen_light_ready_NInv n n' lr : gen_light_ready n = Ok (n', lr) -> NInv n -> NInv n'.
+Proof.
+  unfold gen_light_ready. intros H HI. inv_bind H. inv_bind H. inversion H; subst.
+  unfold NInv. cbn.
+  assert (K : RInv (reduce_uncommitted_size (rn_raft n) match x with Some v => v | None => [] end))
+    by (apply reduce_uncommitted_size_RInv; exact HI).
+  exact K.
+Qed.
+
+Theorem rn_ready_NInv n n' rd : rn_ready n = Ok (n', rd) -> NInv n -> NInv n'.
+Proof.
+  unfold rn_ready. intros H HI. inv_bind H. inv_bind H.
+  destruct x0 as [[[snap csi] rec_snap] ms2]. inv_bind H. destruct x0 as [n2 light].
+  inversion H; subst. unfold NInv. cbn.
+  eapply gen_light_ready_NInv in Hx1; [exact Hx1|]. unfold NInv. cbn. exact HI.
+Qed.
+
+Lemma commit_ready_NInv n rd n' : commit_ready n rd = Ok n' -> NInv n -> NInv n'.
+Proof.
+  unfold commit_ready. intros H HI.
+  set (n0 := match rd_ss rd with Some ss => n <| rn_prev_ss := ss |> | None => n end) in H.
+  assert (H0 : NInv n0) by (subst n0; destruct (rd_ss rd); exact HI). clearbody n0.
+  set (n1 := match rd_hs rd with Some hs => n0 <| rn_prev_hs := hs |> | None => n0 end) in H.
+  assert (H1 : NInv n1) by (subst n1; destruct (rd_hs rd); exact H0). clearbody n1.
+  destruct (rn_records n1); [discriminate|].
+  match type of H with (if ?c then _ else _) = _ => destruct c end; [discriminate|].
+  inv_bind H. inv_bind H. inversion H; subst. unfold NInv in *. cbn. rinv.
+Qed.
+
+Theorem rn_advance_append_async_NInv n rd n' :
+  rn_advance_append_async n rd = Ok n' -> NInv n -> NInv n'.
+Proof. apply commit_ready_NInv. Qed.
+
+Theorem rn_on_persist_ready_NInv n num n' : rn_on_persist_ready n num = Ok n' -> NInv n -> NInv n'.
+Proof.
+  unfold rn_on_persist_ready. intros H HI.
+  destruct (fold_records (rn_records n) num 0 0 0) as [[[recs index] t] snap_index].
+  inv_bind H. inv_bind H. inversion H; subst. unfold NInv in *. cbn in *.
+  assert (H1 : RInv x).
+  { destruct (negb (snap_index =? 0)); [eapply on_persist_snap_RInv; eassumption|].
+    inversion Hx; subst. exact HI. }
+  destruct (negb (index =? 0)); [eapply on_persist_entries_RInv; eassumption|].
+  inversion Hx0; subst. exact H1.
+Qed.
+
+Theorem rn_advance_append_NInv n rd n' lr : rn_advance_append n rd = Ok (n', lr) -> NInv n -> NInv n'.
+Proof.
+  unfold rn_advance_append. intros H HI. inv_bind H. inv_bind H. inv_bind H.
+  destruct x1 as [n3 light].
+  assert (H3 : NInv n3).
+  { eapply gen_light_ready_NInv; [exact Hx1|]. eapply rn_on_persist_ready_NInv; [exact Hx0|].
+    eapply commit_ready_NInv; eassumption. }
+  match type of H with (if ?c then _ else _) = _ => destruct c end; [discriminate|].
+  inv_bind H. destruct x1 as [n4 ci].
+  assert (H4 : NInv n4).
+  { match type of Hx2 with (if ?c then _ else _) = _ => destruct c end;
+      [inversion Hx2; subst; exact H3|].
+    match type of Hx2 with (if ?c then _ else _) = _ => destruct c end; [discriminate|].
+    inversion Hx2; subst; exact H3. }
+  match type of H with (if ?c then _ else _) = _ => destruct c end; [discriminate|].
+  inversion H; subst. exact H4.
+Qed.
+
+Theorem rn_advance_apply_to_NInv n a n' : rn_advance_apply_to n a = Ok n' -> NInv n -> NInv n'.
+Proof.
+  unfold rn_advance_apply_to. intros H HI. eapply lift_NInv; [exact H|].
+  intros r E. eapply commit_apply_RInv; [exact E|exact HI].
+Qed.
+
+Theorem rn_advance_apply_NInv n n' : rn_advance_apply n = Ok n' -> NInv n -> NInv n'.
+Proof. unfold rn_advance_apply. apply rn_advance_apply_to_NInv. Qed.
+
+Theorem rn_advance_NInv n rd n' lr : rn_advance n rd = Ok (n', lr) -> NInv n -> NInv n'.
+Proof.
+  unfold rn_advance. intros H HI. inv_bind H. destruct x as [n1 l1]. cbn [fst snd] in H.
+  inv_bind H. inversion H; subst.
+  eapply rn_advance_apply_to_NInv; [exact Hx0|]. eapply rn_advance_append_NInv; eassumption.
+Qed.
+
+Theorem rn_report_unreachable_NInv n id n' : rn_report_unreachable n id = Ok n' -> NInv n -> NInv n'.
+Proof.
+  unfold rn_report_unreachable. intros H HI. inv_bind H. destruct x as [r c]. inversion H; subst.
+  unfold NInv. cbn. eapply step_RInv; [exact Hx|exact HI].
+Qed.
+
+Theorem rn_report_snapshot_NInv n id f n' : rn_report_snapshot n id f = Ok n' -> NInv n -> NInv n'.
+Proof.
+  unfold rn_report_snapshot. intros H HI. inv_bind H. destruct x as [r c]. inversion H; subst.
+  unfold NInv. cbn. eapply step_RInv; [exact Hx|exact HI].
+Qed.
+
+Theorem rn_request_snapshot_NInv n n' c : rn_request_snapshot n = Ok (n', c) -> NInv n -> NInv n'.
+Proof.
+  unfold rn_request_snapshot. intros H HI. eapply lift2_NInv; [exact H|].
+  intros r c0 E. eapply request_snapshot_RInv; [exact E|exact HI].
+Qed.
+
+Theorem rn_transfer_leader_NInv n t n' : rn_transfer_leader n t = Ok n' -> NInv n -> NInv n'.
+Proof.
+  unfold rn_transfer_leader. intros H HI. inv_bind H. destruct x as [r c]. inversion H; subst.
+  unfold NInv. cbn. eapply step_RInv; [exact Hx|exact HI].
+Qed.
+
+Theorem rn_read_index_NInv n ctx n' : rn_read_index n ctx = Ok n' -> NInv n -> NInv n'.
+Proof.
+  unfold rn_read_index. intros H HI. inv_bind H. destruct x as [r c]. inversion H; subst.
+  unfold NInv. cbn. eapply step_RInv; [exact Hx|exact HI].
+Qed.
+
+(* what the invariant gives, for every tracked peer *)
+Theorem RInv_window_bound r id pr :
+  RInv r -> get_pr r id = Some pr ->
+  (Inflights.count (ins pr) <= Inflights.cap (ins pr))%nat /\
+  Inflights.count (ins pr) = length (iabs (ins pr)).
+Proof.
+  intros HI Hg. pose proof (get_pr_PrInv _ _ _ HI Hg) as Hp.
+  split; [apply IInv_count_le_cap; exact Hp|apply count_abs].
+Qed.
